@@ -12,7 +12,7 @@ from ..provider.essential import CannotProvide, Mediator
 from ..provider.located_request import LocatedRequest, for_predicate
 from ..provider.location import GenericParamLoc
 from ..struct_trail import append_trail, render_trail_as_note
-from ..type_tools import is_subclass_soft
+from ..type_tools import is_pydantic_class, is_subclass_soft
 from .json_schema.definitions import JSONSchema
 from .json_schema.request_cls import JSONSchemaRequest
 from .json_schema.schema_model import JSONSchemaType
@@ -61,6 +61,10 @@ class IterableProvider(MorphingProvider):
             raise CannotProvide
 
         if issubclass(norm.origin, collections.abc.Mapping):
+            raise CannotProvide
+
+        # a pydantic model defines ``__iter__``, so a generic model with one type parameter looks like ``Iterable[T]``
+        if is_pydantic_class(norm.origin):
             raise CannotProvide
 
         return norm, arg
